@@ -396,6 +396,9 @@ func (e *Engine) CallerSites(f *ssa.Function) []ssa.CallInstruction {
 			}
 			if !seen[ed.Site] {
 				seen[ed.Site] = true
+				if p := fnPkg(cf); p != nil && inModule(p) && !e.IsLive(cf) {
+					continue // caller is dead code / test-only helper
+				}
 				out = append(out, ed.Site)
 			}
 		}
